@@ -2,7 +2,7 @@
 # run every claimed check's thorough tier once, sequentially; summary lines to stdout
 cd "$(dirname "$0")/.."
 [ -n "$VP_RUN_REPO" ] && export ONSAGER_REPO="$VP_RUN_REPO"
-for id in ${IDS:-C32 C34 C22 C24 C26 C25 C11 C12 C17 C13 C31 C21 C23 C35 C28 C33 C36 C18 C20 C15 C14 C16 C04 C02 C03 C05}; do
+for id in ${IDS:-C32 C34 C19 C22 C24 C26 C25 C11 C12 C17 C13 C31 C21 C23 C35 C28 C33 C36 C18 C20 C15 C14 C16 C04 C02 C03 C05}; do
   t0=$(date +%s)
   ./check $id --tier thorough > /tmp/thorough_$id.log 2>&1; rc=$?
   t1=$(date +%s)
